@@ -41,7 +41,8 @@ func (s *server) Select(selectorContext *Context) (string, error) {
 		}
 	}
 	if serverId == "" {
-		panic("unexpected behaviour")
+		// no selector could name a server (no candidate left): refuse instead of crashing the coordinator
+		return "", selectors.ErrUnsatisfiedEnsembleReplicas
 	}
 	return serverId, nil
 }
